@@ -89,7 +89,8 @@ type server struct {
 	lch                     []bool
 	enters                  int
 	exits                   int
-	shutdown                bool // Shutdown() called on the current incarnation
+	lastTransT              int64 // virtual time of the last leader.enter / leader.exit hook
+	shutdown                bool  // Shutdown() called on the current incarnation
 	pendVoteT               uint64
 	havePendV               bool
 	pendVoteC               string
@@ -154,12 +155,14 @@ type checker struct {
 	params                 sim.Ev
 	initCfg                Config
 	electMs, leaseMs, hbMs int64
+	notifyDelayMs          int64
 	trailing               uint64
 	monotonic              bool
 
 	tailBegin, tailQuiet, tailProbe, tailEnd uint64
 	tailQuietT                               int64
 	finalReads                               []sim.Ev
+	preReads                                 []sim.Ev // readings taken after the convergence wait, before the probe write
 	installs                                 map[string]int
 	spin                                     []sim.Ev
 	probeIdx                                 uint64
@@ -261,6 +264,7 @@ func (c *checker) step(e *sim.Ev) {
 		c.initCfg = ParseCfg(e.X)
 		c.electMs, c.leaseMs, c.hbMs = int64(e.A), int64(e.B), int64(e.C)
 		c.trailing, c.monotonic = e.D, e.F == 1
+		fmt.Sscanf(e.Z, "notify_delay_ms=%d", &c.notifyDelayMs)
 	case strings.HasPrefix(e.K, "d."):
 		c.diskOp(e)
 	case strings.HasPrefix(e.K, "r."):
